@@ -187,6 +187,13 @@ def gen_model(rng, *, opset: int | None = None, features: dict | None = None, ex
     no_fold = opt("no_fold", 0.15)
     if no_fold:
         f.update(cast_cast=False, expand_fold="none", big_initializer="none", subgraph_if=False)
+    # -- `trimmable`: live nodes with an unused optional output (LayerNormalization Mean) and trailing empty inputs
+    #    (Clip(x, '', '')): RemoveUnusedNodesPass trims both WITHOUT counting them in PassResult.modified; together with
+    #    `nothing_dead` (no dead node, no unused initializer, no dead node in a function) the pass changes the model while
+    #    reporting modified=False
+    trim = opt("trimmable", 0.3)
+    if trim and opt("nothing_dead", 0.6):
+        f.update(dead_node=False, unused_initializer=False, function_dead_node=False)
     # -- foldable constant part and the main chain
     w1 = helper.make_tensor("w1", TP.FLOAT, [4], [1.0, 2.0, 3.0, 4.0])
     w2v = np.array([0.5, 0.5, -0.0, 1.0], dtype=np.float32)
@@ -209,6 +216,10 @@ def gen_model(rng, *, opset: int | None = None, features: dict | None = None, ex
         nodes.append(helper.make_node("Cast", [cur], ["cc1"], to=TP.FLOAT, name="n_cast1"))
         nodes.append(helper.make_node("Cast", ["cc1"], ["cc2"], to=TP.FLOAT, name="n_cast2"))
         cur = "cc2"
+    if trim:
+        nodes.append(helper.make_node("LayerNormalization", [cur, "w1"], ["ln", "ln_mean"], name="n_layernorm", axis=-1))
+        nodes.append(helper.make_node("Clip", ["ln", "", ""], ["cl"], name="n_clip"))
+        cur = "cl"
     has_fn = opt("function_call", 0.6)
     if has_fn:
         nodes.append(helper.make_node("Scale2", [cur], ["fo"], domain=LOCAL, name="n_call", bias=0.25))
@@ -218,6 +229,13 @@ def gen_model(rng, *, opset: int | None = None, features: dict | None = None, ex
         nodes.append(helper.make_node("ReduceMax", [cur], ["rm"], name="n_reducemax", keepdims=1))
         nodes.append(helper.make_node("Add", [cur, "rm"], ["rma"], name="n_rma"))
         cur = "rma"
+    # -- an op that does not exist below opset 20 (Gelu): the onnx C-API converter RAISES on a down-conversion across 20,
+    #    `convert_version(..., fallback=True)` swallows that and must leave the model as it was (failure path)
+    if opset >= 20 and opt("introduced_op", 0.5):
+        nodes.append(helper.make_node("Gelu", [cur], ["ge"], name="n_gelu"))
+        cur = "ge"
+    else:
+        f["introduced_op"] = False
     # -- initializers with more than 1000 elements (the C-API fallback strips and re-attaches such payloads),
     #    plain or also listed as a graph input (an overridable default)
     big = opt("big_initializer", choices=["none", "none", "none", "plain", "input", "input"])
